@@ -1,8 +1,40 @@
-/- C16 Spec: protocol-level constants and predicates the theorems talk about. Core-only. -/
-namespace BV.C16.Spec
+/-
+C16 Spec: protocol-level constants the theorems talk about: the address-related parameters of every
+network btcd ships (pinned against the compiled tree by `BV.Generated.C16` in Props). Core-only.
+-/
+namespace BV.C16
+
+/-- the address-related fields of `chaincfg.Params` -/
+structure Net where
+  name : String
+  pkh : UInt8
+  sh : UInt8
+  wif : UInt8
+  hrp : List UInt8
+  hdPriv : List UInt8
+  hdPub : List UInt8
+deriving Repr, DecidableEq
+
+namespace Spec
 
 /-- BIP-173 / BIP-350 checksum constants -/
 def bech32Const : Nat := 1
 def bech32mConst : Nat := 0x2bc830a3
 
-end BV.C16.Spec
+def mainNet : Net := ⟨"mainnet", 0x00, 0x05, 0x80, [98, 99], [0x04, 0x88, 0xad, 0xe4], [0x04, 0x88, 0xb2, 0x1e]⟩
+def testNet3 : Net := ⟨"testnet3", 0x6f, 0xc4, 0xef, [116, 98], [0x04, 0x35, 0x83, 0x94], [0x04, 0x35, 0x87, 0xcf]⟩
+def testNet4 : Net := ⟨"testnet4", 0x6f, 0xc4, 0xef, [116, 98], [0x04, 0x35, 0x83, 0x94], [0x04, 0x35, 0x87, 0xcf]⟩
+def sigNet : Net := ⟨"signet", 0x6f, 0xc4, 0xef, [116, 98], [0x04, 0x35, 0x83, 0x94], [0x04, 0x35, 0x87, 0xcf]⟩
+def regNet : Net := ⟨"regtest", 0x6f, 0xc4, 0xef, [98, 99, 114, 116], [0x04, 0x35, 0x83, 0x94], [0x04, 0x35, 0x87, 0xcf]⟩
+def simNet : Net := ⟨"simnet", 0x3f, 0x7b, 0x64, [115, 98], [0x04, 0x20, 0xb9, 0x00], [0x04, 0x20, 0xbd, 0x3a]⟩
+
+/-- every parameter set btcd ships, in the order used on the protocol line -/
+def nets : List Net := [mainNet, testNet3, testNet4, sigNet, regNet, simNet]
+
+/-- networks registered by `chaincfg`'s `init` (signet is not registered) -/
+def registered : List Net := [mainNet, testNet3, testNet4, regNet, simNet]
+
+def registeredHrps : List (List UInt8) := registered.map (·.hrp)
+
+end Spec
+end BV.C16
